@@ -101,6 +101,46 @@ CLAIMED = {
          'compiled/uncompiled comparison.'),
    technique='Lean 4 proof of the fit/window/skip selection postconditions + exact model correspondence + strategy-equivalence differential test',
    design='4.C19'),
+ 'C06': dict(
+   text=('Lean 4 theorems (PbVerif.Props.C06): the band arrays every Whittaker method hands to its solver (lower, full, reversed '
+         'layouts; asls-family, iasls with its D1 terms and right-hand side, the row-shifted products of drpls and aspls) denote, for '
+         'EVERY size, difference order and weights, exactly the documented matrix W + lam D\'D (+ extras); the O(d) formula for D\'D used '
+         'by the certificate equals the dense definition. Correspondence/certificates: every baseline along the iteration (captured at '
+         'PenalizedSystem.solve, all four banded_solver values, N from d+2 upward, lam over ten decades, user weights/alpha) is checked in '
+         'exact rational arithmetic against the DOCUMENTED system with the weights in force at that step (recorded at the reweighting '
+         'rule): exact normwise backward error <= 1e-11 (measured ~2e-16); captured band arrays vs the Lean assembly model; converged '
+         'pairs; utils.whittaker_smooth; 2-D direct Kronecker system (exact) and eigen-decomposition path (Galerkin certificate).'),
+   note=('Trusted: Lean kernel; axioms propext, Classical.choice, Quot.sound; harness. The linear solvers (LAPACK, pentapy, SuperLU) are '
+         'black boxes certified per output by the exact backward error, not proved; the 2-D eigen path is certified numerically '
+         '(independent dense eigenvectors), not exactly.'),
+   technique='Lean 4 proof of band assembly = documented matrix + exact-rational backward-error certificate of every captured solve',
+   design='4.C06'),
+ 'C07': dict(
+   text=('Lean 4 theorems (PbVerif.Props.C07): _add_diagonals adds the denoted matrices whichever array has fewer rows (diff_order '
+         'smaller or larger than the degree); the banded scatter loop of _numba_btb_bty plus the padded penalty denote exactly '
+         'B\'WB + lam D\'D and B\'Wy for every degree, basis size, weights and x order; _basis_midpoints returns the centre of each basis '
+         'function\'s support on equally spaced knots (odd and even degree); np.interp model: node values, constants, bounds. '
+         'Correspondence/certificates: coefficients and returned spline captured at PSpline.solve_pspline / PSpline2D.solve for every '
+         'penalised-spline method (asls-family, iasls, drpls, aspls extras; mixture_model, irsqr, mpls, brpls at solve level; '
+         'utils.pspline_smooth with unsorted x; 2-D Kronecker form) are checked in exact rational arithmetic against the documented '
+         'system built from the Cox-de Boor definition with the weights in force at that step: backward error <= 1e-11 (measured '
+         '~2e-16); returned spline vs exact B c; knots vs equally spaced grid over the x-range; converged pairs.'),
+   note=('Trusted: Lean kernel; axioms propext, Classical.choice, Quot.sound; harness. Linear solvers are black boxes certified per '
+         'output by the exact backward error. 2-D pspline_iasls extras are not certified (1-D are).'),
+   technique='Lean 4 proof of P-spline band assembly = documented matrix + exact-rational backward-error certificate of every captured solve',
+   design='4.C07'),
+ 'C20': dict(
+   text=('Lean 4 theorems (PbVerif.Props.C20): _make_btwb (face-splitting + rearrangement) equals the Kronecker definition '
+         '(B_r (x) B_c)\'W(B_r (x) B_c) for every shape, incl. non-square bases; the right-hand side and the reconstruction B_r C B_c\' '
+         'equal their Kronecker forms; in the eigen basis the penalty is diagonal with lam_r e_r[i] + lam_c e_c[k] (each axis\' lam and '
+         'eigenvalues on its own index); the truncated eigen solve is the Galerkin solution of the documented system, and with all '
+         'eigenvectors it equals the direct solve (Mathlib matrices, any index types). Correspondence: 2-D systems with distinct per-axis '
+         'lam / diff_order / num_eigens / knots / degree on square and non-square grids compared with the dense Kronecker definition; '
+         'axis-swap symmetry; Galerkin certificate of the eigen path with independently computed eigenvectors.'),
+   note=('Trusted: Lean kernel; axioms propext, Classical.choice, Quot.sound; harness. Eigen-decomposition (LAPACK) is a black box '
+         'certified by the Galerkin residual against independently computed eigenvectors.'),
+   technique='Lean 4 proof of Kronecker/array-algebra index identities + dense-definition differential check with per-axis distinct parameters',
+   design='4.C20'),
  'C08': dict(
    text=('Lean 4 theorems (PbVerif.Props.C08) in exact rationals: coefficients converted by _poly_transform_matrix/_convert_coef evaluate '
          'to the fitted polynomial for EVERY domain, order and x (binomial theorem), incl. the special-cased offset == 0 branch; the 2-D '
